@@ -236,7 +236,7 @@ pub fn valid_stream(rng: &mut Rng, k: usize, opts: &GenOpts) -> (Vec<u8>, Vec<La
 // ------------------------------------------------------------------ corruptions
 
 /// Names of the single-point corruptions of C02's quantifier.
-pub const CORRUPTIONS: [&str; 30] = [
+pub const CORRUPTIONS: [&str; 32] = [
     "method_lower",
     "method_empty",
     "method_wrong",
@@ -267,6 +267,8 @@ pub const CORRUPTIONS: [&str; 30] = [
     "cl_huge",
     "ae_empty",
     "ae_identity_q0",
+    "leading_crlf",
+    "crlf_after_body",
 ];
 
 /// Applies corruption `c` to request `r` (in place). Returns false if not applicable.
@@ -358,6 +360,26 @@ pub fn corrupt(r: &mut ReqSpec, c: &str, rng: &mut Rng) -> bool {
             let p = rng.below(r.headers.len() + 1);
             let v: &[u8] = if rng.chance(1, 2) { b"Accept-Encoding: gzip, identity;q=0" } else { b"Accept-Encoding: *;q=0" };
             r.headers.insert(p, v.to_vec());
+        }
+        "leading_crlf" => {
+            // an empty line where the request line is expected
+            let mut l = b"\r\n".to_vec();
+            match &r.raw_line {
+                Some(x) => l.extend_from_slice(x),
+                None => {
+                    l.extend_from_slice(&r.method);
+                    l.push(b' ');
+                    l.extend_from_slice(&r.uri);
+                    l.push(b' ');
+                    l.extend_from_slice(&r.version);
+                }
+            }
+            r.raw_line = Some(l);
+        }
+        "crlf_after_body" => {
+            // a stray CR LF after the declared body (or after a bodiless request): not part of the body,
+            // so it sits where the next request line is expected
+            r.body.extend_from_slice(b"\r\n");
         }
         _ => return false,
     }
